@@ -8,6 +8,7 @@ import (
 	"errors"
 	"fmt"
 	"io"
+	"strings"
 	"sync"
 	"testing"
 	"time"
@@ -261,4 +262,199 @@ func c14Self(w, seq, size int) []byte {
 	b := kit.TokenBytes(uint64(w)<<24|uint64(seq), size)
 	b[0], b[1], b[2], b[3], b[4], b[5] = byte(w), byte(seq>>16), byte(seq>>8), byte(seq), byte(size>>8), byte(size)
 	return b
+}
+
+// c14DgramSource behaves like a UDP socket handed to Stream.ReadFrom: one datagram per Read, whatever does not fit into
+// the caller's buffer is discarded, io.EOF when there is nothing more.
+type c14DgramSource struct {
+	msgs [][]byte
+}
+
+func (s *c14DgramSource) Read(b []byte) (int, error) {
+	if len(s.msgs) == 0 {
+		return 0, io.EOF
+	}
+	m := s.msgs[0]
+	s.msgs = s.msgs[1:]
+	return copy(b, m), nil
+}
+
+// TestVerifC14ReadFrom: datagrams relayed with Stream.ReadFrom (what the server does for a UDP proxy target:
+// common.Copy(stream, udpConn)). (A) every legal datagram size, in particular the sizes just under the per-frame
+// maximum, is delivered whole with identical content; (B) after a ReadFrom has relayed messages and returned, many
+// streams of the same session send concurrently: every datagram still arrives whole, once, on its own stream.
+func TestVerifC14ReadFrom(t *testing.T) {
+	log.SetOutput(io.Discard)
+	log.SetLevel(log.PanicLevel)
+	res := kit.NewResult()
+	defer func() { res.Save(true) }()
+	methods := []byte{EncryptionMethodPlain, EncryptionMethodAES256GCM, EncryptionMethodChaha20Poly1305, EncryptionMethodAES128GCM}
+	nm := 2
+	if kit.Thorough() {
+		nm = 4
+	}
+	for mi := 0; mi < nm; mi++ {
+		method := methods[(mi+int(kit.Seed()))%4]
+		vn := kit.NewVNet()
+		var key [32]byte
+		copy(key[:], kit.NewRng(kit.Seed()*7+int64(mi)).Bytes(32))
+		mk := func() *Session {
+			o, _ := MakeObfuscator(method, key)
+			return MakeSession(8, SessionConfig{Obfuscator: o, Unordered: true, MsgOnWireSizeLimit: 16401, InactivityTimeout: time.Hour})
+		}
+		cs, ss := mk(), mk()
+		for i := 0; i < 4; i++ {
+			l := vn.NewLink(false, false)
+			cs.AddConnection(common.NewTLSConn(l.End(0)))
+			ss.AddConnection(common.NewTLSConn(l.End(1)))
+		}
+		max := cs.maxStreamUnitWrite
+		// (A) size sweep through ReadFrom
+		sizes := []int{8, 9, 100, 1500, 8192, max / 2}
+		for s := max - 40; s <= max; s++ {
+			sizes = append(sizes, s)
+		}
+		st, err := cs.OpenStream()
+		if err != nil {
+			t.Fatal(err)
+		}
+		src := &c14DgramSource{}
+		for i, s := range sizes {
+			src.msgs = append(src.msgs, c14Self(1, i, s))
+		}
+		rfDone := make(chan error, 1)
+		go func() { _, err := st.ReadFrom(src); rfDone <- err }()
+		conn, err := ss.Accept()
+		if err != nil {
+			t.Fatal(err)
+		}
+		srv := conn.(*Stream)
+		buf := make([]byte, 20000)
+		seen := map[int]bool{}
+		for range sizes {
+			srv.SetReadDeadline(time.Now().Add(15 * time.Second))
+			n, err := srv.Read(buf)
+			if err != nil {
+				break
+			}
+			d := buf[:n]
+			if n < 8 {
+				res.Violate("dgram-wrong", fmt.Sprintf("ReadFrom relay: a %d-byte datagram nobody sent arrived", n), nil)
+				continue
+			}
+			seq, size := int(d[1])<<16|int(d[2])<<8|int(d[3]), int(d[4])<<8|int(d[5])
+			res.Count(fmt.Sprintf("rf-size-%d", size), true)
+			if size != n || !bytes.Equal(d, c14Self(1, seq, size)) {
+				res.Violate("dgram-wrong", fmt.Sprintf("a datagram of %d bytes (per-frame maximum %d) relayed with Stream.ReadFrom was delivered as a message of %d bytes", size, max, n),
+					map[string]any{"method": method, "size": size, "max": max, "delivered": n})
+				continue
+			}
+			seen[seq] = true
+		}
+		if len(seen) < len(sizes) && res.NumViolations() == 0 {
+			res.Violate("dgram-lost", fmt.Sprintf("ReadFrom relay on a healthy session: %d of %d datagrams arrived", len(seen), len(sizes)), map[string]any{"method": method})
+		}
+		select {
+		case <-rfDone:
+		case <-time.After(10 * time.Second):
+			res.Note("ReadFrom did not return after its source ended")
+		}
+		// (B) now several streams send at once
+		nst, per := 8, 250
+		if kit.Thorough() {
+			per = 1500
+		}
+		type rcv struct {
+			got   int
+			wrong string
+		}
+		results := make(chan rcv, nst)
+		var streams []*Stream
+		for k := 0; k < nst; k++ {
+			s2, err := cs.OpenStream()
+			if err != nil {
+				t.Fatal(err)
+			}
+			s2.Write(c14Self(k+10, 1<<20, 16)) // announces the stream and tells the reader which writer it belongs to
+			streams = append(streams, s2)
+		}
+		for k := 0; k < nst; k++ {
+			conn, err := ss.Accept()
+			if err != nil {
+				t.Fatal(err)
+			}
+			go func(sv *Stream) {
+				b := make([]byte, 20000)
+				owner := -1
+				seen := map[int]bool{}
+				out := rcv{}
+				for out.got < per+1 {
+					sv.SetReadDeadline(time.Now().Add(8 * time.Second))
+					n, err := sv.Read(b)
+					if err != nil {
+						break
+					}
+					d := b[:n]
+					if n < 8 {
+						out.wrong = fmt.Sprintf("a %d-byte datagram nobody sent", n)
+						break
+					}
+					w, seq, size := int(d[0]), int(d[1])<<16|int(d[2])<<8|int(d[3]), int(d[4])<<8|int(d[5])
+					if owner < 0 {
+						owner = w
+					}
+					if size != n || !bytes.Equal(d, c14Self(w, seq, size)) {
+						out.wrong = fmt.Sprintf("datagram (writer %d, seq %d) arrived altered: %d bytes, header says %d", w, seq, n, size)
+						break
+					}
+					if w != owner {
+						out.wrong = fmt.Sprintf("cross-stream: a datagram of writer %d arrived on the stream of writer %d", w, owner)
+						break
+					}
+					if seen[seq] {
+						out.wrong = fmt.Sprintf("datagram (writer %d, seq %d) delivered twice", w, seq)
+						break
+					}
+					seen[seq] = true
+					out.got++
+				}
+				results <- out
+			}(conn.(*Stream))
+		}
+		var wg sync.WaitGroup
+		for k, s2 := range streams {
+			wg.Add(1)
+			go func(k int, s2 *Stream) {
+				defer wg.Done()
+				for q := 0; q < per; q++ {
+					size := []int{8, 100, 1200, 8192, 1500}[(q+k)%5]
+					if _, err := s2.Write(c14Self(k+10, q, size)); err != nil {
+						return
+					}
+				}
+			}(k, s2)
+		}
+		wg.Wait()
+		total := 0
+		for k := 0; k < nst; k++ {
+			o := <-results
+			total += o.got
+			if o.wrong != "" {
+				key := "dgram-wrong"
+				if strings.HasPrefix(o.wrong, "cross-stream") {
+					key = "dgram-cross-stream"
+				}
+				res.Violate(key, "concurrent senders on several streams after a ReadFrom had returned: "+o.wrong, map[string]any{"method": method})
+			}
+		}
+		res.Stat("datagrams_received", int64(total))
+		if total < nst*(per+1) && res.NumViolations() == 0 {
+			res.Violate("dgram-lost", fmt.Sprintf("concurrent senders on %d healthy streams after a ReadFrom had returned: only %d of %d datagrams arrived", nst, total, nst*(per+1)), map[string]any{"method": method})
+		}
+		if mi == 0 {
+			res.Sample(map[string]any{"readfrom_sizes": len(sizes), "max": max, "streams": nst, "datagrams_each": per, "received": total}, 1)
+		}
+		cs.Close()
+		ss.Close()
+	}
 }
